@@ -42,7 +42,7 @@ Init0 == [tid |-> "none", line |-> 0, maxsize |-> 0, pool |-> 0, door |-> 0, loa
           sent |-> <<>>, appl |-> <<>>, psent |-> <<>>, owes |-> <<>>, need |-> <<>>,
           gets |-> 0, hits |-> 0, lp |-> [k \in KeyDom |-> "none"], lrun |-> [k \in KeyDom |-> 0], lfail |-> <<>>, lcur |-> [k \in KeyDom |-> {}], lmine |-> <<>>, rv |-> <<>>, rdirty |-> <<>>, pl |-> <<>>,
           lastTick |-> -1, stalled |-> FALSE, heldAcc |-> 0, thresh |-> 28610, tick |-> 1024, nsnap |-> 0, nnotif |-> 0, nevents |-> 0, viol |-> {}, traces |-> 0, hangs |-> 0,
-          stuck |-> 0, skipped |-> 0, una |-> {}, qcap |-> 1024, batch |-> 128, sight |-> <<>>, tickSeq |-> 0]
+          stuck |-> 0, skipped |-> 0, una |-> {}, qcap |-> 1024, batch |-> 128, sight |-> <<>>, tickSeq |-> 0, lc |-> <<>>, lrunv |-> [k \in KeyDom |-> {}]]
 
 V(s, prop, kind) ==
   IF Cardinality(s.viol) >= 40 THEN s
@@ -85,7 +85,9 @@ DoCall(s, e) ==
        [] e.op = "range" -> [s1 EXCEPT !.rv = Put(s.rv, e.p, <<>>), !.rdirty = Put(s1.rdirty, e.p, busy)]
        [] e.op = "len" -> [s1 EXCEPT !.rdirty = Put(s1.rdirty, e.p, busy)]
        \* a caller may join a load that is already in flight (until its leader returns)
-       [] e.op = "lget" -> [s1 EXCEPT !.pl = Put(s.pl, e.p, s.lcur[e.k]), !.lfail = Put(s.lfail, e.p, FALSE)]
+       [] e.op = "lget" -> [s1 EXCEPT !.pl = Put(s.pl, e.p, s.lcur[e.k]), !.lfail = Put(s.lfail, e.p, FALSE),
+                                       !.lc = Put(s.lc, e.p, s.lrunv[e.k] \cup (IF s.mp[e.k] # 0 /\ ~(En(s, s.mp[e.k]).dl # 0 /\ En(s, s.mp[e.k]).dl <= e.t)
+                                                                             THEN {En(s, s.mp[e.k]).v} ELSE {}))]
        [] e.op = "close" -> [s1 EXCEPT !.closed = TRUE]
        [] OTHER -> s1
 
@@ -153,7 +155,7 @@ DoSetOther(s, e) ==
       old == IF e.ev = "setrej" /\ e.cnt > 1 THEN Get(s.sight, e.sh, {}) ELSE {}
       s3 == Vif(s2, e.ev = "setrej" /\ e.k \in old, "C06", "doorkeeper_rejected_key_it_had_already_seen")
       s4 == IF e.ev = "setrej" THEN [s3 EXCEPT !.sight = Put(s.sight, e.sh, old \cup {e.k})] ELSE s3
-  IN [s4 EXCEPT !.lin = Put(s.lin, e.p, [NoLin EXCEPT !.kind = e.ev, !.found = 0, !.v = 0, !.e = 0])]
+  IN [ClearLp(s4, e.p, e.k) EXCEPT !.lin = Put(s.lin, e.p, [NoLin EXCEPT !.kind = e.ev, !.found = 0, !.v = 0, !.e = 0])]
 
 DoGet(s, e) ==
   LET c == Pc(s, e.p)
@@ -216,7 +218,12 @@ DoRet(s, e) ==
                 a == Vif(s0, hit /\ (e.ok # 1 \/ e.v # li.v), "C01", "returned_differs_from_read_under_lock")
                 b == Vif(a, ~hit /\ own /\ e.ok = 1 /\ e.v # li.v, "C13", "leader_returns_other_than_loaded")
                 d == Vif(b, ~hit /\ ~own /\ e.ok = 1 /\ e.v \notin Get(s.pl, e.p, {}), "C13", "follower_result_not_from_overlapping_load")
-                f0 == Vif(d, c.ac /\ e.n # 2, "C10", "loading_get_after_close_not_cache_closed_error")
+                \* C01: a caller that was handed the result of somebody else's load gets a value the key held at some
+                \* moment between its call and its return - not one that was deleted, evicted or overwritten before it
+                \* called (D21: a caller that misses after the leader stored and unlocked, but before the call left the
+                \* single-flight table, joined the finished call)
+                d1 == Vif(d, ~hit /\ ~own /\ e.ok = 1 /\ e.v # Get(s.lmine, e.p, <<0, 0>>)[2] /\ e.v \notin Get(s.lc, e.p, {}), "C01", "loading_get_returns_value_the_key_did_not_hold_during_the_call")
+                f0 == Vif(d1, c.ac /\ e.n # 2, "C10", "loading_get_after_close_not_cache_closed_error")
                 \* C03: a loading Get that did not load (and did not hit under the read lock) hands out the value of the
                 \* entry the key still has in the map although that entry's deadline has passed
                 cur == s.mp[c.k]
@@ -390,13 +397,19 @@ DoHang(s, e) ==
 
 DoEnd(s, e) == [s EXCEPT !.stuck = s.stuck + e.stuck, !.skipped = s.skipped + e.skipped]
 
+\* C01 (D21): the values key k held at some moment since a pending loading Get on k was called, and the values of
+\* the loader invocations for k that were running at the call or began later (a value too large for the cache or
+\* turned away by the doorkeeper is handed to the callers that waited for it although the key never holds it)
+NoteVal(s, k, v) ==
+  [s EXCEPT !.lc = [q \in DOMAIN s.lc |-> IF Pc(s, q).op = "lget" /\ Pc(s, q).k = k THEN s.lc[q] \cup {v} ELSE s.lc[q]]]
+
 Upd(s0, e) ==
   LET s == [s0 EXCEPT !.nevents = @ + 1] IN
   CASE e.ev = "reset" -> DoReset(s, e)
     [] e.ev = "call" -> DoCall(s, e)
     [] e.ev = "ret" -> DoRet(s, e)
-    [] e.ev = "setnew" -> DoSetNew(s, e)
-    [] e.ev = "setupd" -> DoSetUpd(s, e)
+    [] e.ev = "setnew" -> NoteVal(DoSetNew(s, e), e.k, e.v)
+    [] e.ev = "setupd" -> NoteVal(DoSetUpd(s, e), e.k, e.v)
     [] e.ev \in {"setrej", "setclosed"} -> DoSetOther(s, e)
     [] e.ev = "get" -> DoGet(s, e)
     [] e.ev = "del" -> DoDel(s, e)
@@ -408,10 +421,11 @@ Upd(s0, e) ==
     [] e.ev = "removedarm" -> DoRemovedArm(s, e)
     [] e.ev = "notify" -> DoNotify(s, e)
     [] e.ev = "adv" -> DoAdv(s, e)
-    [] e.ev = "load" -> DoLoad(s, e)
-    [] e.ev = "loadend" -> [s EXCEPT !.lrun = [s.lrun EXCEPT ![e.k] = IF @ > 0 THEN @ - 1 ELSE 0],
+    [] e.ev = "load" -> LET s1 == NoteVal(DoLoad(s, e), e.k, e.v) IN [s1 EXCEPT !.lrunv = [s.lrunv EXCEPT ![e.k] = @ \cup {e.v}]]
+    [] e.ev = "loadend" -> [s EXCEPT !.lrunv = [s.lrunv EXCEPT ![e.k] = @ \ {Get(s.lmine, e.p, <<0, 0>>)[2]}], !.lrun = [s.lrun EXCEPT ![e.k] = IF @ > 0 THEN @ - 1 ELSE 0],
                                      !.lfail = Put(s.lfail, e.p, e.o # "ok"),
-                                     !.lp = IF e.o # "ok" /\ s.lp[e.k] = e.p THEN [s.lp EXCEPT ![e.k] = "none"] ELSE s.lp]
+                                     \* nothing will be stored: the load failed, or its value is larger than the cache
+                                     !.lp = IF (e.o # "ok" \/ Lin(s, e.p).cost > s.maxsize) /\ s.lp[e.k] = e.p THEN [s.lp EXCEPT ![e.k] = "none"] ELSE s.lp]
     [] e.ev = "snap" -> DoSnap(s, e)
     [] e.ev = "ticklocked" -> DoTickLocked(s, e)
     [] e.ev = "badaccess" -> V(s, "C08", "read_event_applied_to_entry_recycled_for_another_key")
